@@ -27,6 +27,8 @@ func init() {
 		Variants: []Variant{
 			{Name: "short-read-uint32", File: pkgUtil + "/reader.go",
 				Old: "\t_, err = io.ReadFull(reader, protocol[:4])", New: "\t_, err = reader.Read(protocol[:4])", Expect: "short-read"},
+			{Name: "property-flag-error-discarded", File: pkgUtil + "/reader.go",
+				Old: "\t\thasSignature, err := ReadBool(rd)\n\t\tif err != nil {\n\t\t\treturn nil, err\n\t\t}", New: "\t\thasSignature, _ := ReadBool(rd)", Expect: "read-error-consumed"},
 			{Name: "int64-written-as-4", File: pkgUtil + "/writer.go",
 				Old: "func WriteInt64(writer io.Writer, val int64) (err error) {\n\terr = WriteUint64(writer, uint64(val))", New: "func WriteInt64(writer io.Writer, val int64) (err error) {\n\terr = WriteUint32(writer, uint32(val))", Expect: "pair:Int64"},
 			{Name: "negative-length-unchecked", File: pkgUtil + "/reader.go",
@@ -101,6 +103,28 @@ func runC03(c *Ctx) {
 		}
 	}
 	c.Info["reader_read_calls"] = nRead
+
+	// ---- (1b) no read error dropped: a truncated input must surface as an error
+	nErr := 0
+	for _, fn := range utilFns {
+		if streamParam(fn) == nil && fn.Parent() == nil {
+			continue
+		}
+		dropped, total := droppedErrors(fn, func(nm string, cc *ssa.CallCommon) bool {
+			for _, a := range cc.Args {
+				if a.Type().String() == "io.Reader" || a.Type().String() == "io.ByteReader" {
+					return true
+				}
+			}
+			return cc.IsInvoke() && (cc.Value.Type().String() == "io.Reader" || cc.Value.Type().String() == "io.ByteReader")
+		})
+		nErr += total
+		for _, ci := range dropped {
+			c.Check("read-error-consumed", calleeName(ci.Common())+"@"+shortName(fn), ci, false,
+				"the error of this stream read is never tested or returned (discarded, or assigned to a shadowed variable that goes out of scope): a strict prefix of a valid encoding decodes to a zero/short value with err == nil")
+		}
+	}
+	c.CheckAt("read-error-consumed", "scanned", pkgUtil, nErr >= 60, fmt.Sprintf("%d error-returning stream reads in package util, each consumed", nErr))
 
 	// ---- (2) pair agreement
 	vt, err := evalVersionTable(c.P)
